@@ -96,6 +96,7 @@ fn run_conc(args: &[String]) -> i32 {
     let replay_dir = arg(args, "--replay-dir").unwrap_or("replays").to_string();
     let out = arg(args, "--out").map(|s| s.to_string());
     futures_intrusive::verif::set_interleave_hook(Some(fiv::conc::interleave_hook));
+    fiv::conc::CONC_MODE.store(true, std::sync::atomic::Ordering::Relaxed);
     let mut ctx = fiv::engine::Ctx::new();
     let mut st = ConcStats::new();
     let t0 = Instant::now();
